@@ -205,6 +205,8 @@ pub fn new_key_sel() -> impl Strategy<Value = KeySel> {
 pub fn val_sel(ps: u32) -> impl Strategy<Value = ValSel> {
     prop_oneof![
         2 => Just(ValSel::Lit(vec![])),
+        // 16 bytes: the size of a nested bucket's stored meta (all zero for a bucket created in this transaction)
+        1 => prop_oneof![Just(ValSel::Lit(vec![0u8; 16])), prop::collection::vec(any::<u8>(), 16).prop_map(ValSel::Lit)],
         6 => prop::collection::vec(any::<u8>(), 1..12).prop_map(ValSel::Lit),
         4 => (ps / 8..ps / 3, any::<u8>()).prop_map(|(len, seed)| ValSel::Fill { len, seed }),
         2 => (ps - 200..ps + 200, any::<u8>()).prop_map(|(len, seed)| ValSel::Fill { len, seed }),
